@@ -93,13 +93,20 @@ func summarize(prop, tier string, seed int, all []*obligation, reports []funcRep
 		g := groups[n]
 		sum := oblSummary{Name: g.name, Kind: g.kind, Paths: len(g.insts), Status: "discharged"}
 		var bad *obligation
+		// vacuity guards: the point must be reachable on at least one path
+		coverOK := false
+		for _, o := range g.insts {
+			if o.expectSat && o.status != "unsat" {
+				coverOK = true
+			}
+		}
 		for _, o := range g.insts {
 			res.Obligations++
 			ok := false
 			switch {
 			case o.expectSat:
 				// vacuity guard: must not be refutable
-				ok = o.status != "unsat"
+				ok = coverOK
 				res.Covers++
 			case o.status == "trivial":
 				ok = true
